@@ -6,6 +6,8 @@
   that the body of one anchored function is, character for character, the text the model was
   transcribed from.  Any edit of an anchored statement makes the corresponding `rfl` fail: the proof
   obligation is re-opened and the harness run that follows looks for an input on which the property fails.
+  The three functions touched by fixes/C05-1-inplace-alias-guard.diff accept either text; which one is
+  present is exported as `aliasGuard_*` and selects the in-place model the driver runs.
 -/
 import AITB.Gen.BeliefSrc
 namespace AITB.Belief.Src
@@ -17,7 +19,11 @@ theorem src_makeSOSA : makeSOSA =
 
 /-- modelled by: unnormE, unnormG -/
 theorem src_updateBeliefUnnormalizedPtr : updateBeliefUnnormalizedPtr =
-    "if(!bRet)return;auto&br=*bRet;ifconstexpr(IsModelEigen<M>){br=model.getObservationFunction(a).col(o).cwiseProduct((b.transpose()*model.getTransitionFunction(a)).transpose());}else{constsize_tS=model.getS();for(size_ts1=0;s1<S;++s1){doublesum=0.0;for(size_ts=0;s<S;++s)sum+=model.getTransitionProbability(s,a,s1)*b[s];br[s1]=model.getObservationProbability(s1,a,o)*sum;}}" := rfl
+    "if(!bRet)return;auto&br=*bRet;ifconstexpr(IsModelEigen<M>){br=model.getObservationFunction(a).col(o).cwiseProduct((b.transpose()*model.getTransitionFunction(a)).transpose());}else{constsize_tS=model.getS();for(size_ts1=0;s1<S;++s1){doublesum=0.0;for(size_ts=0;s<S;++s)sum+=model.getTransitionProbability(s,a,s1)*b[s];br[s1]=model.getObservationProbability(s1,a,o)*sum;}}"
+  ∨ -- with fixes/C05-1-inplace-alias-guard.diff applied (the body after the guard is unchanged)
+  updateBeliefUnnormalizedPtr =
+    "if(!bRet)return;if(bRet==&b){constBeliefin=b;returnupdateBeliefUnnormalized(model,in,a,o,bRet);}auto&br=*bRet;ifconstexpr(IsModelEigen<M>){br=model.getObservationFunction(a).col(o).cwiseProduct((b.transpose()*model.getTransitionFunction(a)).transpose());}else{constsize_tS=model.getS();for(size_ts1=0;s1<S;++s1){doublesum=0.0;for(size_ts=0;s<S;++s)sum+=model.getTransitionProbability(s,a,s1)*b[s];br[s1]=model.getObservationProbability(s1,a,o)*sum;}}" := by
+  first | exact Or.inl rfl | exact Or.inr rfl
 
 /-- modelled by: delegates to the pointer overload -/
 theorem src_updateBeliefUnnormalizedVal : updateBeliefUnnormalizedVal =
@@ -33,7 +39,11 @@ theorem src_updateBeliefVal : updateBeliefVal =
 
 /-- modelled by: predictE, predictG -/
 theorem src_updateBeliefPartialPtr : updateBeliefPartialPtr =
-    "if(!bRet)return;auto&br=*bRet;ifconstexpr(IsModelEigen<M>){br=(b.transpose()*model.getTransitionFunction(a)).transpose();}else{constsize_tS=model.getS();for(size_ts1=0;s1<S;++s1){br[s1]=0.0;for(size_ts=0;s<S;++s)br[s1]+=model.getTransitionProbability(s,a,s1)*b[s];}}" := rfl
+    "if(!bRet)return;auto&br=*bRet;ifconstexpr(IsModelEigen<M>){br=(b.transpose()*model.getTransitionFunction(a)).transpose();}else{constsize_tS=model.getS();for(size_ts1=0;s1<S;++s1){br[s1]=0.0;for(size_ts=0;s<S;++s)br[s1]+=model.getTransitionProbability(s,a,s1)*b[s];}}"
+  ∨ -- with fixes/C05-1-inplace-alias-guard.diff applied (the body after the guard is unchanged)
+  updateBeliefPartialPtr =
+    "if(!bRet)return;if(bRet==&b){constBeliefin=b;returnupdateBeliefPartial(model,in,a,bRet);}auto&br=*bRet;ifconstexpr(IsModelEigen<M>){br=(b.transpose()*model.getTransitionFunction(a)).transpose();}else{constsize_tS=model.getS();for(size_ts1=0;s1<S;++s1){br[s1]=0.0;for(size_ts=0;s<S;++s)br[s1]+=model.getTransitionProbability(s,a,s1)*b[s];}}" := by
+  first | exact Or.inl rfl | exact Or.inr rfl
 
 /-- modelled by: delegates to the pointer overload -/
 theorem src_updateBeliefPartialVal : updateBeliefPartialVal =
@@ -41,7 +51,11 @@ theorem src_updateBeliefPartialVal : updateBeliefPartialVal =
 
 /-- modelled by: partialUnnormE, partialUnnormG -/
 theorem src_updateBeliefPartialUnnormalizedPtr : updateBeliefPartialUnnormalizedPtr =
-    "if(!bRet)return;auto&br=*bRet;ifconstexpr(IsModelEigen<M>){br=model.getObservationFunction(a).col(o).cwiseProduct(b);}else{constsize_tS=model.getS();for(size_ts=0;s<S;++s)br[s]=model.getObservationProbability(s,a,o)*b[s];}" := rfl
+    "if(!bRet)return;auto&br=*bRet;ifconstexpr(IsModelEigen<M>){br=model.getObservationFunction(a).col(o).cwiseProduct(b);}else{constsize_tS=model.getS();for(size_ts=0;s<S;++s)br[s]=model.getObservationProbability(s,a,o)*b[s];}"
+  ∨ -- with fixes/C05-1-inplace-alias-guard.diff applied (the body after the guard is unchanged)
+  updateBeliefPartialUnnormalizedPtr =
+    "if(!bRet)return;if(bRet==&b){constBeliefin=b;returnupdateBeliefPartialUnnormalized(model,in,a,o,bRet);}auto&br=*bRet;ifconstexpr(IsModelEigen<M>){br=model.getObservationFunction(a).col(o).cwiseProduct(b);}else{constsize_tS=model.getS();for(size_ts=0;s<S;++s)br[s]=model.getObservationProbability(s,a,o)*b[s];}" := by
+  first | exact Or.inl rfl | exact Or.inr rfl
 
 /-- modelled by: delegates to the pointer overload -/
 theorem src_updateBeliefPartialUnnormalizedVal : updateBeliefPartialUnnormalizedVal =
